@@ -152,5 +152,10 @@ pub(crate) trait CMsgHdr {
     fn len(&self) -> usize;
 }
 
+/// Size of the control-message buffers
+///
+/// Must hold every control message a receive can carry at once. On Linux with IPv6 that is
+/// `SCM_TIMESTAMPNS` (32 bytes), `UDP_GRO` (24), `IPV6_PKTINFO` (40) and `IPV6_TCLASS` (24);
+/// with a smaller buffer the kernel truncates the list and the ECN codepoint is lost.
 #[cfg(unix)]
-pub(crate) const LEN: usize = 96;
+pub(crate) const LEN: usize = 128;
